@@ -316,8 +316,9 @@ pub fn configs(thorough: bool) -> Vec<Cfg> {
         }
     }
     // the ramp under saturating demand for thresholds that are NOT round numbers (q/c has a
-    // fractional part) over the whole stated range of periods: thorough takes every q in 30..=500
-    let sweep_q: Vec<u32> = if thorough { (30..=500).collect() } else { (30..=500).step_by(13).chain([31, 41, 61]).collect() };
+    // fractional part) over the whole stated range of periods: thorough takes every q in 30..=120 and every 7th above
+    // (7 is coprime with every cold factor, so every residue of q modulo c occurs)
+    let sweep_q: Vec<u32> = if thorough { (30..=120).chain((121..=500).step_by(7)).collect() } else { (30..=500).step_by(13).chain([31, 41, 61]).collect() };
     let sweep_p: &[u32] = if thorough { &[1, 2, 3, 4, 5, 6, 7, 8, 9, 10, 11, 12, 13, 14, 15, 16, 17, 18, 19, 20] } else { &[1, 7, 8, 20] };
     for q in sweep_q {
         for c in [0u32, 2, 3, 4, 5, 6] {
